@@ -56,6 +56,10 @@ fn chars_name(p: &[i64; 4]) -> String {
   format!("{} {} {} {}", pillar_name(p[0]), pillar_name(p[1]), pillar_name(p[2]), pillar_name(p[3]))
 }
 
+thread_local! {
+  static SECONDARY: std::cell::RefCell<(String, String, i64)> = std::cell::RefCell::new((String::new(), String::new(), 0));
+}
+
 impl C09 {
   /// a[0] = date index, a[1] = hour: hour pillar, day roll and index in day on both views
   fn eval_hour(&self, env: &Env, out: &mut Out, sub: &str, case: &Case) {
@@ -76,6 +80,10 @@ impl C09 {
     let r = guard(|| {
       let lh = t.get_lunar_hour();
       let sh = t.get_sixty_cycle_hour();
+      let shown = sh.to_string();
+      let parts = format!("{}年{}月{}日{}时", sh.get_year().get_name(), sh.get_month().get_name(), sh.get_day().get_name(), sh.get_sixty_cycle().get_name());
+      let emb = sh.get_sixty_cycle_day().get_sixty_cycle().get_index() as i64;
+      SECONDARY.with(|x| *x.borrow_mut() = (shown, parts, emb));
       (lh.get_sixty_cycle().get_index() as i64, lh.get_index_in_day() as i64, sh.get_sixty_cycle().get_index() as i64, sh.get_day().get_index() as i64, sh.get_index_in_day() as i64, lh.get_lunar_day().get_sixty_cycle().get_index() as i64)
     });
     let (lhp, lidx, shp, shd, sidx, ldp) = match r {
@@ -96,6 +104,14 @@ impl C09 {
     }
     if shd != ed {
       out.fail(env, viol(sub, "instant_day_roll", case, &k, tfmt(c, i, h * 3600), pillar_name(ed), pillar_name(shd)));
+    }
+    // the other surfaces of the instant-level view show the same four pillars: its text and its embedded day object
+    let (shown, parts, emb) = SECONDARY.with(|x| x.borrow().clone());
+    if shown != parts {
+      out.fail(env, viol(sub, "instant_view_text_differs_from_its_pillars", case, &k, tfmt(c, i, h * 3600), parts, shown));
+    }
+    if emb != shd {
+      out.fail(env, viol(sub, "instant_view_embedded_day_pillar", case, &k, format!("{} get_sixty_cycle_day().get_sixty_cycle() vs get_day()", tfmt(c, i, h * 3600)), pillar_name(shd), pillar_name(emb)));
     }
     if ldp != dp {
       out.fail(env, viol(sub, "lunar_day_pillar", case, &k, tfmt(c, i, h * 3600), pillar_name(dp), pillar_name(ldp)));
